@@ -415,7 +415,7 @@ EXTRA = {
            " The TLC-enumerated calls include 13 builtins that are not pure (rand, strerror, get_errno, read / write / read_line / read_to_string / pcap_* with arguments that are no file, print, eprintln) - their results are not prescribed, but no argument may crash them; programs sitting exactly on, under and over the limits of locals, call arguments and captured variables.",
     "C09": " Every operator is also applied to one stored value on both sides (variable, array slot, argument) for every "
            "operand of the table: an operator must see values, not where they live."
-           " Doubles far outside the dyadic model (1e-300, subnormals, 2.2e-16, 1e300 ...) as operands of every operator with nine partners in both orders: the model knows only that they are finite and not zero - so nothing divides by zero, arithmetic yields a float, bitwise operators refuse them. + on arrays builds a new array whatever the operands (an empty one, the same one twice): changing the result or an operand afterwards does not show through.",
+           " Doubles far outside the dyadic model (1e-300, subnormals, 2.2e-16, 1e300 ...) as operands of every operator with nine partners in both orders: the model knows only that they are finite and not zero - so nothing divides by zero, arithmetic yields a float, bitwise operators refuse them. + on arrays builds a new array whatever the operands (an empty one, the same one twice): changing the result or an operand afterwards does not show through. The answers of the six comparison operators on every ordered operand pair of the table (2 601 pairs, both orders) are validated against spec/OpLawTrace.tla: the four ordering operators accept or refuse a pair together, <= is (< or ==), >= is (> or ==), never both < and >, != negates ==, and swapping the operands mirrors the answers - also for pairs whose ordering the documentation leaves open.",
     "C10": " The relation itself: all ordered pairs of 28 keys of every kind through one fixed history (write under k1; observe "
            "k1 == k2, contains, the value insert replaces, len, get, index) validated by spec/MapEqTrace.tla: the map must agree "
            "with whatever == says about the pair - this covers pairs whose equality the documentation leaves open."
@@ -452,7 +452,7 @@ EXTRA = {
            "if, loop, named function body, anonymous function); later lines read names from nested scopes."
            " What every accepted line prints is compared with what the same line prints as the last line of a script made of the lines accepted before it (both recorded, spec/ReplTrace.tla 'output'), including lines that are just a value (falsey ones too); sessions define functions whose bodies are the same text under parameter lists of different length and call them.",
     "C24": " Programs start with 0-4 comment / blank lines (under the shebang line in shebang mode)."
-           " A quarter of the texts have CRLF line ends; string literals spanning lines (the line end inside the quotes is part of the string).",
+           " A quarter of the texts have CRLF line ends; string literals spanning lines (the line end inside the quotes is part of the string). After a runtime error -c adds nothing to the output (spec/Cli.tla: the final expression statement has no value).",
     "C12": " Print scripts include texts with a line break followed by 700-5 000 characters without one (the standard output is line buffered: the tail goes out in a write of its own).",
     "C16": " The seven properties of the pcap object against the 24 bytes of the global header (spec/PcapHdrTrace.tla: byte order from the magic number, thiszone signed, the others unsigned; boundary and random values of every field).",
     "C18": " Addresses of an IPv4 header that carries options.",
